@@ -367,7 +367,16 @@ func (c *FuncCtx) execFor(fr *frame, n *ast.ForStmt, st *State, k func(*State)) 
 		k(s)
 	}
 	start := func(s0 *State) {
-		c.checkInvariants(s0, ls, ord, "inv-init", nil, n, nil)
+		var hf0 []*Term
+		if len(ls.Lemmas) > 0 {
+			// the loop's lemma hints are also available when the invariant is established
+			// (prev(e) is then the value on entry to the loop)
+			var facts []*Term
+			env := c.specEnv(s0, &facts)
+			env.prevSt = s0
+			hf0 = append(c.evalHints(s0, ls.Lemmas, env, c.con.File), facts...)
+		}
+		c.checkInvariants(s0, ls, ord, "inv-init", nil, n, hf0)
 		head := s0.clone()
 		as := c.assignedIn(n.Body, n.Post)
 		c.havoc(head, as, fmt.Sprintf("loop%d", ord))
@@ -394,6 +403,7 @@ func (c *FuncCtx) execFor(fr *frame, n *ast.ForStmt, st *State, k func(*State)) 
 				if len(ls.Lemmas) > 0 {
 					var facts []*Term
 					env := c.specEnv(s3, &facts)
+					env.prevSt = headSnap
 					hf = append(c.evalHints(s3, ls.Lemmas, env, c.con.File), facts...)
 				}
 				c.checkInvariants(s3, ls, ord, "inv-pres", headSnap, n, hf)
